@@ -128,6 +128,7 @@ def main():
     p.add_argument("--tier", default="quick")
     p.add_argument("--part", default="0/1", help="i/n: only every n-th change, starting with the i-th (to run several of these side by side)")
     p.add_argument("--skip", default="", help="comma-separated names to leave out")
+    p.add_argument("--only", default="", help="regular expression: only changes whose name matches")
     sub.add_parser("table")
     a = ap.parse_args()
     if a.cmd == "ingest":
@@ -136,7 +137,9 @@ def main():
         rerun(a.name, a.tier, a.checks.split(",") if a.checks else None)
     elif a.cmd == "all":
         i, n = (int(v) for v in a.part.split("/"))
-        names = [name for name in sorted(os.listdir(SEEDED)) if os.path.exists(os.path.join(SEEDED, name, "meta.json")) and name not in a.skip.split(",")]
+        import re
+
+        names = [name for name in sorted(os.listdir(SEEDED)) if os.path.exists(os.path.join(SEEDED, name, "meta.json")) and name not in a.skip.split(",") and re.search(a.only, name)]
         for name in names[i::n]:
             rerun(name, a.tier, None)
     elif a.cmd == "table":
